@@ -237,7 +237,7 @@ def go_build(cmdname, harness_dir=None):
     except OSError:
         pass
     with Lock("go"):
-        rc, out = run(["go", "build"] + _modfile_args(hdir) + ["-tags", "verif", "-o", exe, "./cmd/" + cmdname], cwd=hdir, env=GOENV, timeout=3600)
+        rc, out = run(["go", "build", "-buildvcs=false"] + _modfile_args(hdir) + ["-tags", "verif", "-o", exe, "./cmd/" + cmdname], cwd=hdir, env=GOENV, timeout=3600)
     if rc == 0:
         _built.add(cmdname)
     return rc == 0, exe, out
